@@ -517,17 +517,23 @@ def tensorfn_cases(draw):
     lead = draw(st.sampled_from(["full", "full", "full", "one"]))
     Ne_, nPg_ = lead_shape(lead, Ne, nPg)
     a = fe_spec(t, "full") if kind == "fe" else arr_spec(t)
-    return dict(fn=fn, Ne=Ne_, nPg=nPg_, a=a, k=draw(SEED))
+    # magnitude of the entries (Jacobians of meshes in micrometres, stiffnesses in Pa): the functions are homogeneous
+    return dict(fn=fn, Ne=Ne_, nPg=nPg_, a=a, k=draw(SEED), mag=draw(st.sampled_from([1.0, 1.0, 1.0, 1e-8, 1e6])))
 
 
 def check_tensorfn(case, rec):
     Ne, nPg, fn, k = case["Ne"], case["nPg"], case["fn"], case["k"]
     ofn, cut, mode, _ = TFN[fn]
     A = Operand(case["a"], Ne, nPg, k, mode)
+    mag = float(case.get("mag", 1.0))
+    if mag != 1.0:
+        A.raw = A.raw * mag
+        A.obj = FeArray.asfearray(A.raw.copy()) if A.is_fe else A.raw.copy()
+        rec.label(f"mag:{mag:g}")
     coll = classify(rec, Ne, nPg, A.dims, [A.kind])
     rec.label("op:" + fn, "kinds:" + A.kind, f"rank:{fn}:{A.rank}")
     sig = dict(op=fn, kinds=A.kind, ranks=str(A.rank), collision=coll)
-    what = f"{fn}({A.kind}{list(np.shape(A.raw))})"
+    what = f"{fn}({A.kind}{list(np.shape(A.raw))}" + (f" x {mag:g})" if mag != 1.0 else ")")
     if A.is_fe:
         try:
             ref, ill = pointwise(ofn, [A], Ne, nPg), None
@@ -540,6 +546,8 @@ def check_tensorfn(case, rec):
             ref, ill = None, f"{type(ex).__name__}: {ex}"
     ok, got = call(lambda: cut(A.obj))
     scale = {"Det": (max(A.amax, 1.0) ** max(A.dims[-1:] + [1])) * 24.0}.get(fn, max(A.amax, 1.0) * 16.0)
+    if mag != 1.0 and ref is not None and np.size(ref) and np.all(np.isfinite(ref)):
+        scale = 24.0 * float(np.abs(ref).max()) + 1e-300  # relative to the result itself
     judge(rec, ok, got, ref, ill, A.is_fe, scale, sig, what)
 
 
